@@ -171,16 +171,20 @@ def run(tier: str) -> int:
         profiles.random_profile('rt', False, True, 10, 60, ORACLES, actions_mode='throw', switches=True,
                                 inputs=profiles.inputs_exhaustive(4, 6, cap_q=150, cap_t=900), per_tu=2,
                                 configs=profiles.amr_configs(ams=((1, 'r'), (0, 'o')), unwinds=(1, 0))),
+        profiles.control_profile('cc', 10, 60, ORACLES + [('control-scope', oracle_control_scope)], actions_mode='states', per_tu=2,
+                                 configs=profiles.amr_configs(ams=((1, 'r'), (0, 'o')), unwinds=(1, 0))),
     ]
-    return engine.run_engine('C13', tier, ['PegtlVerif.Props.C13'], ps, extra=lambda v, cov, rng: control_part(v, cov, rng, tier))
+    return engine.run_engine('C13', tier, ['PegtlVerif.Props.C13'], ps)
 
 
 def replay(path: str) -> int:
     return engine.replay('C13', path, ORACLES)
 
 
-# ---------------------------------------------------------------- change_control / control<> : oracle-only part
-# (the Lean model has one control per run; which control sees which invocation is checked on the implementation's trace)
+# ---------------------------------------------------------------- change_control / control<>
+# The model records the control family of every `enter` and `start` (C13_switch_scoped covers it); this oracle checks, on the
+# implementation's own log, more than the model records: *every* hook line of an invocation (success, failure, unwind, apply,
+# apply0, exit) is logged by the control family the rule table prescribes for it.
 
 def _ctl_of(tag: str):
     """('st2', ...) -> ('st', 2)"""
@@ -188,30 +192,42 @@ def _ctl_of(tag: str):
 
 
 def oracle_control_scope(c: Case, tr: Trace) -> Optional[str]:
-    stack = []     # frames: {'id', 'body': control of the rule's own hooks, 'child': control its sub-rules are invoked through}
-    for l in tr.events:
+    # frames: 'body': control of the rule's own hooks, 'child': control its sub-rules are invoked through,
+    # 'cfam': action family its sub-rules are invoked with (decides which `change_control` attachment is in force)
+    stack = []
+    for l in tr.raw_events:
         p = l.split()
         t, k = _ctl_of(p[0])
-        if t in ('sc', 'ss', 'sd'):
+        if t in ('sc', 'ss', 'sd', 'rp'):
             continue
         if t == 'E':
             nid = int(p[1])
             exp = stack[-1]['child'] if stack else 0
+            fam = stack[-1]['cfam'] if stack else c.cfg.fam
             if k != exp:
                 return f"rule {nid} is invoked through control {k}; its context selects control {exp}"
             nd = c.g.nodes.get(nid)
-            spec = c.g.acts.get(nid) if nd is not None and nd.ctl else None
-            body = 2 if (spec is not None and spec.wrap == 'cc') else k
-            child = 2 if (nd is not None and nd.kind == 'control') else body
-            stack.append({'id': nid, 'enter': k, 'body': body, 'child': child, 'hooks': 0, 'ctl': bool(nd is not None and nd.ctl)})
+            spec = c04._spec(c, fam, nid) if nd is not None and nd.ctl else None
+            wrap = spec.wrap if spec is not None else 'none'
+            reenter = wrap.startswith('ca:') or wrap.startswith('cas:')     # the same rule again with the new family: no hooks in this frame
+            cfam = int(wrap.split(':')[1]) if reenter else fam
+            body = 2 if wrap == 'cc' else k
+            child = body
+            if nd is not None and not reenter:
+                if nd.kind == 'control':
+                    child = 2
+                elif nd.kind == 'action':
+                    cfam = nd.params[0][1] if isinstance(nd.params[0], tuple) else nd.params[0]
+            stack.append({'id': nid, 'enter': k, 'body': body, 'child': child, 'cfam': cfam, 'hooks': 0,
+                          'ctl': bool(nd is not None and nd.ctl and not reenter)})
         elif t == 'X':
             fr = stack.pop()
             if k != fr['enter']:
                 return f"exit of rule {fr['id']} logged by control {k}, entered through control {fr['enter']}"
-            if fr['ctl'] and fr['hooks'] == 0:
+            if fr['ctl'] and fr['hooks'] == 0 and not (len(p) > 2 and p[2] == '2'):
                 return f"rule {fr['id']} was matched without any hook of control {fr['body']} being called (start is missing)"
         elif t == 'ra':
-            if stack and k != stack[-1]['child']:
+            if stack and int(p[1]) < 1000000 and k != stack[-1]['child']:
                 return f"raise for rule {p[1]} through control {k}; the must-context uses control {stack[-1]['child']}"
         else:
             if not stack:
@@ -263,9 +279,9 @@ def control_part(v, cov, rng, tier):
         c = by_id.get(cid)
         if c is None:
             continue
-        marks = sum(1 for l in tr.events if _ctl_of(l.split()[0])[1] == 2)
+        marks = sum(1 for l in tr.raw_events if _ctl_of(l.split()[0])[1] == 2)
         st['marked_events'] += marks
-        if marks and marks < len(tr.events):
+        if marks and marks < len(tr.raw_events):
             st['switching_runs'] += 1
         msg = oracle_control_scope(c, tr) or oracle_states(c, tr)
         if msg and len(v.violations) < 5:
